@@ -2,7 +2,10 @@
 directories into ONE local store sharing ONE hash-state database.  Every file-system mutation under the store is a
 gate: a thread parks there until the scheduler gives it the turn, so an execution is a deterministic function of the
 schedule.  Schedules are read from a JSON file; results are written as JSON.
-Usage: python -m harness.schedchild <root> <schedules.json> <out.json> <uid|-1>
+Usage: python -m harness.schedchild <root> <schedules.json> <out.json> <uid|-1|-2>
+uid -1: all writers root; uid >= 0: the whole process drops to that uid; uid -2: MIXED - the process stays root and every
+writer thread takes its own file-system uid (61000 + w) and the common gid 61000 (setfsuid/setfsgid are per thread on
+Linux and drop the thread's file-system capabilities), on a store opened with shared=True.
 """
 from __future__ import annotations
 
@@ -68,6 +71,7 @@ class Sched:
 
 SCHED = None
 STORE = None
+MIXED = {}
 
 
 def _under(p):
@@ -106,6 +110,9 @@ def install_gates():
 
         def run(*aa, **kk):
             tls.wid = wid
+            if MIXED.get("libc") is not None and wid is not None:  # pool threads act for their writer
+                MIXED["libc"].setfsgid(MIXED["gid"])
+                MIXED["libc"].setfsuid(MIXED["gid"] + wid)
             return fn(*aa, **kk)
 
         return real_submit(self, run, *a, **kw)
@@ -124,11 +131,14 @@ def main():
     import logging
 
     errtypes = []
+    errnos = []
 
     class Collect(logging.Handler):
         def emit(self, record):
             if record.exc_info and record.exc_info[1] is not None:
                 errtypes.append([getattr(tls, "wid", 0), type(record.exc_info[1]).__name__])
+                if getattr(record.exc_info[1], "errno", None):
+                    errnos.append(int(record.exc_info[1].errno))
 
     logging.getLogger().addHandler(Collect())
     logging.getLogger().setLevel(logging.ERROR)
@@ -156,9 +166,17 @@ def main():
     shutil.rmtree(warm, ignore_errors=True)
 
     schedules = json.load(open(sched_file))
+    mixed = uid == -2
+    GID = 61000
     if uid >= 0:
         os.setgid(uid)
         os.setuid(uid)
+    if mixed:
+        import ctypes
+
+        libc = ctypes.CDLL(None, use_errno=True)
+        os.umask(0o002)
+        MIXED.update({"libc": libc, "gid": GID})
     install_gates()
     results = []
     for si, sc in enumerate(schedules):
@@ -167,7 +185,19 @@ def main():
         os.makedirs(base)
         STORE = os.path.join(base, "store")
         fs = LocalFileSystem()
+        if mixed:
+            # group-shared directories (setgid, group-writable) for the store and the state database
+            for d in (STORE, os.path.join(base, "state"), os.path.join(base, "state", "hashes"), os.path.join(base, "state", "hashes", "local"),
+                      os.path.join(base, "state", "links")):
+                os.makedirs(d, exist_ok=True)
+                os.chown(d, -1, GID)
+                os.chmod(d, 0o2775)
         state = State(root_dir=base, tmp_dir=os.path.join(base, "state"))
+        if mixed:
+            for r_, _ds, fs_ in os.walk(os.path.join(base, "state")):
+                for f_ in fs_:
+                    os.chown(os.path.join(r_, f_), -1, GID)
+                    os.chmod(os.path.join(r_, f_), 0o664)
         for w in range(1, nw + 1):
             d = os.path.join(base, f"ws{w}", "data")
             os.makedirs(d)
@@ -177,16 +207,23 @@ def main():
         SCHED = Sched(range(1, nw + 1))
         outcome = {}
         del errtypes[:]
+        del errnos[:]
 
         def writer(w):
             tls.wid = w
             try:
-                odb = LocalHashFileDB(fs, STORE, state=state)
+                if mixed:
+                    if libc.setfsgid(GID) < 0 or libc.setfsuid(GID + w) < 0:
+                        raise OSError("setfsuid failed")
+                    libc.setfsuid(GID + w)  # the second call returns the previous value: must be ours now
+                odb = LocalHashFileDB(fs, STORE, state=state, **({"shared": True} if mixed else {}))
                 staging, _m, obj = build(odb, os.path.join(base, f"ws{w}", "data"), fs, "md5")
                 res = transfer(staging, odb, {obj.hash_info}, shallow=False)
                 outcome[w] = {"ok": not res.failed, "failed": sorted(h.value for h in res.failed), "dir": obj.hash_info.value, "exc": ""}
             except BaseException as exc:  # noqa: BLE001 - the writer's failure is the observation
                 outcome[w] = {"ok": False, "failed": [], "dir": "", "exc": f"{type(exc).__name__}: {exc}"[:200]}
+                if getattr(exc, "errno", None):
+                    errnos.append(int(exc.errno))
             finally:
                 SCHED.finish(w)
 
@@ -211,7 +248,7 @@ def main():
             t.join(timeout=60)
         state.close()
         results.append({"schedule": sc, "status": status, "outcome": {str(k): v for k, v in outcome.items()},
-                        "errtypes": sorted({e[1] for e in errtypes}),
+                        "errtypes": sorted({e[1] for e in errtypes}), "errnos": sorted(set(errnos)),
                         "steps": len(SCHED.trace), "trace_head": SCHED.trace[:12], "base": base})
         SCHED = None
     json.dump(results, open(out_file, "w"))
